@@ -170,3 +170,116 @@ def wrap_solve(function, kind):
         return result
 
     return wrapper
+
+
+# Container operations ---------------------------------------------------------
+
+_depth = 0
+
+
+def _digest(obj):
+    """Names, dtypes, shapes and a content hash of the object's variables, in order."""
+    import hashlib
+
+    d = obj.__dict__
+    out = []
+    for name in list(d.get('index', [])):
+        a = d.get('_' + name)
+        try:
+            out.append([name, a.dtype.str, int(a.ndim), int(a.shape[0]) if a.ndim else -1,
+                        hashlib.md5(a.tobytes()).hexdigest()[:12]])
+        except Exception:
+            out.append([name, type(a).__name__, -1, -1, ''])
+    return out
+
+
+def _operand(value):
+    try:
+        import numpy as np
+
+        if isinstance(value, np.ndarray):
+            return {'cls': 'array', 'ndim': int(value.ndim), 'len': int(value.shape[0]) if value.ndim else -1}
+        if isinstance(value, str):
+            return {'cls': 'str', 'ndim': 0, 'len': -1}
+        if hasattr(value, '__len__') and hasattr(value, '__getitem__') and not isinstance(value, (dict, set)):
+            nested = any(hasattr(x, '__len__') and not isinstance(x, str) for x in value)
+            return {'cls': 'seq', 'ndim': 2 if nested else 1, 'len': len(value)}
+        return {'cls': 'scalar', 'ndim': 0, 'len': -1}
+    except Exception:
+        return {'cls': 'other', 'ndim': -1, 'len': -1}
+
+
+def _object_fields(obj):
+    d = obj.__dict__
+    try:
+        length = len(d['span'])
+    except Exception:
+        length = -1
+    return {'L': length, 'strict': bool(d.get('_strict', False)),
+            'attrs': [str(x) for x in d.get('_attributes', [])], 'vars': _digest(obj)}
+
+
+def wrap_container_op(function, op):
+    """Emit one `c_op` event per outermost public container operation: the
+    variables' digest before and after, the operand's shape class and the
+    outcome."""
+
+    @functools.wraps(function)
+    def wrapper(self, *args, **kwargs):
+        global _depth
+        if _depth > 0 or 'index' not in self.__dict__:
+            return function(self, *args, **kwargs)
+
+        _depth += 1
+        try:
+            try:
+                fields = {'op': op, 'cls': type(self).__name__, 'pre': _object_fields(self)}
+                if op in ('add_variable', 'setattr'):
+                    fields['names'] = [str(args[0])] if args else [str(kwargs.get('name'))]
+                    value = args[1] if len(args) > 1 else kwargs.get('value')
+                    fields['opd'] = _operand(value)
+                    fields['dtype'] = None if kwargs.get('dtype') is None else str(kwargs.get('dtype'))
+                elif op == 'setitem':
+                    key = args[0]
+                    fields['names'] = [str(key[0] if isinstance(key, tuple) and key else key)]
+                    fields['sub'] = isinstance(key, tuple)
+                    fields['key_ok'] = isinstance(key, str) or (isinstance(key, tuple) and len(key) == 2)
+                    fields['opd'] = _operand(args[1] if len(args) > 1 else None)
+                elif op == 'replace_values':
+                    fields['names'] = [str(k) for k in kwargs]
+                else:
+                    fields['names'] = []
+            except Exception as e:  # never let the hook change behaviour
+                fields = {'op': op, 'hook_error': repr(e)}
+
+            try:
+                result = function(self, *args, **kwargs)
+            except BaseException as e:
+                try:
+                    fields['post'] = _object_fields(self)
+                except Exception:
+                    pass
+                emit('c_op', self, exc=type(e).__name__, **fields)
+                raise
+
+            try:
+                fields['post'] = _object_fields(self)
+                if op in ('copy', 'reindex') and hasattr(result, '__dict__') and 'index' in result.__dict__:
+                    fields['res'] = _object_fields(result)
+                    fields['res_cls'] = type(result).__name__
+                    fields['res_is_self'] = result is self
+            except Exception:
+                pass
+            emit('c_op', self, exc=None, **fields)
+            return result
+        finally:
+            _depth -= 1
+
+    return wrapper
+
+
+def hook_container(cls):
+    for name, op in (('add_variable', 'add_variable'), ('__setattr__', 'setattr'), ('__setitem__', 'setitem'),
+                     ('replace_values', 'replace_values'), ('copy', 'copy'), ('reindex', 'reindex')):
+        setattr(cls, name, wrap_container_op(cls.__dict__[name], op))
+    cls.__copy__ = cls.copy
